@@ -35,12 +35,16 @@ MANIFEST = {
             'thread count and of the block boundaries); weights undergo the same permutation; starts[k] = #{key < k}, '
             'non-decreasing from 0 to N; the write cursors of the (thread, key) cells tile [0,N) and every output cell is '
             'written exactly once, so by the data-race-freedom theorem of Common/Par.v every interleaving of the scatter '
-            'phase yields the same arrays; with sort=True each stripe is sorted and a permutation of the unsorted stripe '
-            '(argsort abstract); the generated key expression equals min(floor(x*np/box), np-1) and lies in [0,np) for '
+            'phase yields the same arrays; sort=True: proved for ONE iteration of the per-stripe sort loop (any stripe: Ok, '
+            'sorted on the coordinate, a permutation of the stripe, weights rearranged by the same indices, nothing outside '
+            'the stripe touched; argsort abstract) - the composition over all stripes is stated but not proved and rests on '
+            'the correspondence run; the generated key expression equals min(floor(x*np/box), np-1) and lies in [0,np) for '
             '0 <= x <= box.  The model is tied to the code by running both on the same structured inputs '
             '(N in {0,1,2,3,17,100} x npartition {1,2,3,7,64} x nthread 1..16 x coord x float32/64 x weights x sort; '
             'duplicates, stripe-boundary values, x = box) and comparing psort, starts, wsort exactly.',
-    'note': 'Hand-written model (not translated): its statements are pinned by an AST shape check in tools/gen/c17.py and it '
+    'note': 'PARTIAL: sorted_option (sort=True over all stripes) is STATED-UNPROVED in Properties.v; proved instead: '
+            'sort_step_on_a_stripe_partial (one loop iteration).  All other clauses are proved at full strength.  '
+            'Hand-written model (not translated): its statements are pinned by an AST shape check in tools/gen/c17.py and it '
             'is validated by the correspondence run.  argsort is a Section variable (assumed: sorting permutation).  '
             'Floating-point rounding of pos*inv_pwidth is not modelled (exact rationals; dyadic test inputs).  The schedule '
             'theorem is about thread programs whose write addresses are the ones the sequential model computes (the cursor '
@@ -147,7 +151,13 @@ def impl_cases(payload):
     if mode == 'py_func':
         f = f.py_func
     out = []
+    import json
+    import math
+    import sys
+    sink = open(payload['out_path'], 'a') if payload.get('out_path') else None
     for ci, c in enumerate(payload['cases']):
+        sys.stderr.write(f'@@CASE {ci}\n')
+        sys.stderr.flush()
         pos = np.array(c['pos'], dtype=c['dtype']).reshape(c['N'], 3)
         w = None if c['weights'] is None else np.array(c['weights'], dtype=c['dtype'])
         pos0 = pos.copy()
@@ -161,15 +171,21 @@ def impl_cases(payload):
                         and st.dtype == np.int64 and ((ws is None) == (w is None))
                         and (ws is None or (ws.shape == w.shape and ws.dtype == w.dtype))
                         and ps is not pos and (ws is None or ws is not w))
-            out.append({'class': 'ok',
-                        'value': [[[float(v) for v in row] for row in ps], [int(v) for v in st],
-                                  None if ws is None else [float(v) for v in ws]],
-                        'input_unmodified': unmod, 'shape_ok': bool(shape_ok)})
+            finite = bool(np.all(np.isfinite(ps)) and (ws is None or np.all(np.isfinite(ws))))
+            clean = (lambda v: float(v) if math.isfinite(float(v)) else repr(float(v)))
+            rec = {'class': 'ok',
+                   'value': [[[clean(v) for v in row] for row in ps], [int(v) for v in st],
+                             None if ws is None else [clean(v) for v in ws]],
+                   'input_unmodified': unmod, 'shape_ok': bool(shape_ok), 'finite': finite}
         except Exception as e:  # noqa: BLE001
-            out.append({'class': classify(e), 'value': repr(e)[:200], 'input_unmodified': True, 'shape_ok': True})
+            rec = {'class': classify(e), 'value': repr(e)[:200], 'input_unmodified': True, 'shape_ok': True, 'finite': True}
         finally:
             if mode == 'py_func':
                 numba.prange = _ORIG_PRANGE[0]
+        out.append(rec)
+        if sink is not None:
+            sink.write(json.dumps(rec) + '\n')
+            sink.flush()
     return out
 
 
@@ -201,6 +217,45 @@ def impl_tstart(payload):
     return out
 
 
+def run_mode(ctx, tag, fn, cases, extra_env=None, max_crashes=3):
+    """Run all cases in a fresh interpreter; if the interpreter dies (segmentation fault after an out-of-bounds write),
+    keep the results written so far, mark the case that was running as 'crash', and continue after it in a new one."""
+    import json
+    import os
+    import re
+    results, start, crashes = [], 0, 0
+    while start < len(cases):
+        path = os.path.join(ctx.scratch, f'impl_{tag}_{start}.jsonl')
+        try:
+            got = ctx.run_impl('harness.c17', fn, {'cases': cases[start:], 'out_path': path}, extra_env)
+            results += got
+            break
+        except RuntimeError as e:
+            if 'died' not in str(e):
+                raise
+            done = []
+            if os.path.exists(path):
+                with open(path) as f:
+                    for line in f:
+                        try:
+                            done.append(json.loads(line))
+                        except ValueError:
+                            break
+            marks = re.findall(r'@@CASE (\d+)', str(e))
+            k = max(len(done), int(marks[-1]) if marks else len(done))
+            done = done[:k] + [{'class': 'not_run', 'value': None}] * (k - len(done))
+            rc = re.search(r'rc=(-?\d+)', str(e))
+            results += done + [{'class': 'crash', 'value': f'the interpreter died while running this case ({rc.group(0) if rc else "?"})',
+                                'input_unmodified': True, 'shape_ok': True, 'finite': True}]
+            start += k + 1
+            crashes += 1
+            if crashes >= max_crashes:
+                results += [{'class': 'not_run', 'value': None}] * (len(cases) - start)
+                ctx.notes.append(f'{tag}: the interpreter died {crashes} times; the remaining {len(cases) - start} cases were not run in this mode')
+                break
+    return results
+
+
 # ------------------------------------------------------------------------------------------ oracle (independent)
 def exact_keys(c):
     fb = Fraction(c['box'])
@@ -225,8 +280,14 @@ def oracle(c):
 
 def judge(c, got, exp):
     """None if the implementation's outcome satisfies the property, else a description of the failed clause."""
+    if got['class'] == 'not_run':
+        return None
+    if got['class'] == 'crash':
+        return 'memory safety: ' + got['value']
     if got['class'] != 'ok':
         return f"raised/{got['class']}: {got['value']}"
+    if not got.get('finite', True):
+        return 'output contains non-finite values (cells never written: uninitialised memory)'
     if not got.get('shape_ok', True):
         return 'output arrays have the wrong shape/dtype or alias the input'
     if not got.get('input_unmodified', True):
@@ -326,11 +387,14 @@ def explore(ctx):
     else:
         mismatches.append({'what': 'tstart hypothesis could not be checked', 'error': tab_err})
 
-    modes = {
-        'compiled': ctx.run_impl('harness.c17', 'impl_cases', {'cases': cases}),
-        'boundscheck': ctx.run_impl('harness.c17', 'impl_cases', {'cases': cases}, {'NUMBA_BOUNDSCHECK': '1'}),
-        'py_func_permuted': ctx.run_impl('harness.c17', 'impl_cases_pyfunc', {'cases': cases}),
-    }
+    import concurrent.futures
+    with concurrent.futures.ThreadPoolExecutor(max_workers=3) as ex:   # three fresh interpreters side by side
+        futs = {
+            'compiled': ex.submit(run_mode, ctx, 'compiled', 'impl_cases', cases),
+            'boundscheck': ex.submit(run_mode, ctx, 'boundscheck', 'impl_cases', cases, {'NUMBA_BOUNDSCHECK': '1'}),
+            'py_func_permuted': ex.submit(run_mode, ctx, 'py_func', 'impl_cases_pyfunc', cases),
+        }
+        modes = {k: f.result() for k, f in futs.items()}
     dist = {'N': {}, 'npartition': {}, 'nthread': {}, 'coord': {}, 'dtype': {}, 'weights': {}, 'sort': {}, 'style': {},
             'more_threads_than_particles': 0, 'empty_input': 0, 'with_x_eq_box': 0, 'with_duplicate_keys_coord': 0,
             'random_block_boundaries_for_model': 0, 'outcome': {}}
@@ -370,8 +434,10 @@ def explore(ctx):
                         'predicate': 'psort == pos[stable_argsort(min(floor(x*np/box), np-1))], wsort likewise, '
                                      'starts[k] == #{key < k}, inputs unmodified (sort=True: every stripe sorted on the '
                                      'coordinate and a permutation of that stripe)'})
-            if mode != 'py_func_permuted':
-                core = {'class': got['class'], 'value': got['value'] if got['class'] == 'ok' else None}
+            if mode != 'py_func_permuted' and got['class'] != 'not_run':
+                cls = got['class'] if got.get('finite', True) else 'other'   # non-finite output can never equal the model's
+                cls = 'oob' if cls == 'crash' else cls
+                core = {'class': cls, 'value': got['value'] if cls == 'ok' else None}
                 if core not in outcomes:
                     outcomes.append(core)
         if c['sort'] and not sorted_unique(c, exp):
@@ -438,9 +504,9 @@ def search(ctx, broken):
 def replay(ctx, rec):
     c = rec['input']
     exp = oracle(c)
-    got = {'compiled': ctx.run_impl('harness.c17', 'impl_cases', {'cases': [c]})[0],
-           'boundscheck': ctx.run_impl('harness.c17', 'impl_cases', {'cases': [c]}, {'NUMBA_BOUNDSCHECK': '1'})[0],
-           'py_func_permuted': ctx.run_impl('harness.c17', 'impl_cases_pyfunc', {'cases': [c]})[0]}
+    got = {'compiled': run_mode(ctx, 'r_compiled', 'impl_cases', [c])[0],
+           'boundscheck': run_mode(ctx, 'r_boundscheck', 'impl_cases', [c], {'NUMBA_BOUNDSCHECK': '1'})[0],
+           'py_func_permuted': run_mode(ctx, 'r_py_func', 'impl_cases_pyfunc', [c])[0]}
     why = {m: judge(c, g, exp) for m, g in got.items()}
     still = any(w is not None for w in why.values())
     return still, {'input': c, 'failed_clause_by_mode': why, 'impl_result': got,
